@@ -52,7 +52,8 @@ def gen_param(rng, safe):
   if k < 0.8: return {"kind": "tuple", "v": [gen_param(rng, safe) for _ in range(rng.randrange(1, 4))]}
   if k < 0.85: return {"kind": "list", "v": [{"kind": "int", "v": rng.randrange(100)} for _ in range(rng.randrange(1, 12))]}
   if k < 0.9: return {"kind": "struct_type", "name": "PT%d" % rng.randrange(3), "fields": [["a", rng.choice([3, 4])], ["b", 8]]}
-  if k < 0.95: return {"kind": "bits_value", "n": rng.choice([5, 8, 8]), "v": rng.choice([0, 1, 3, 3, rng.randrange(32)])}
+  if k < 0.93: return {"kind": "bits_value", "n": rng.choice([5, 8, 8]), "v": rng.choice([0, 1, 3, 3, rng.randrange(32)])}
+  if k < 0.97: return {"kind": "struct_value", "name": "SVal", "fields": [["a", 4], ["b", 8]], "v": [rng.choice([0, 1, 2, 3]), rng.choice([0, 1, 2, 255])]}   # a bitstruct INSTANCE (e.g. a reset value)
   if safe: return {"kind": "float", "v": rng.choice([0.5, 1.0, 2.25])}
   return {"kind": "int", "v": -rng.randrange(1, 9)}
 
@@ -109,6 +110,11 @@ def gen_param_design(rng, odd=False):
            ({"kind": "int", "v": 13}, {"kind": "bits_value", "n": 8, "v": 0x13})
     kv = {"kind": "int", "v": rng.randrange(0, 8)}
     pos = rng.choice([2, 3])
+    if rng.random() < 0.3:
+      # two bitstruct INSTANCES of one type that differ in one field value
+      a = {"kind": "struct_value", "name": "SVal", "fields": [["a", 4], ["b", 8]], "v": [1, 2]}
+      b = {"kind": "struct_value", "name": "SVal", "fields": [["a", 4], ["b", 8]], "v": [rng.choice([1, 3]), rng.choice([4, 2])]}
+      if b["v"] == a["v"]: b["v"] = [3, 4]
     if rng.random() < 0.35:
       # parameter values that differ but HASH alike in CPython: hash(-1) == hash(-2)
       a, b = {"kind": "int", "v": -1}, {"kind": "int", "v": -2}
